@@ -198,6 +198,7 @@ def prove_contract(session, c, max_paths=4000, time_budget=None, known=()):
         session.record(pyvc.ObligationResult(qn + "/extract", "safety", 'oof', "function-not-found"))
         return 0
     session.functions[qn] = ex.sha256
+    session.allow_external = getattr(c, 'allow_external_', False)
     if c.trusted:
         session.trusted.add("contract of %s assumed (%s)" % (qn, "; ".join(c.notes)))
         return 0
@@ -312,8 +313,11 @@ def _check_raise(I, c, ex, exc, spec_locals, old, heap0, args, when_vals):
     path.session.cover(qn + "/cover.raise." + exc.cls.__name__)
     if not matched:
         if c.no_other_raises:
+            msg = ""
+            if exc.args and isinstance(exc.args[0], str):
+                msg = ": " + exc.args[0][:120]
             path.fail("%s/raises.unexpected" % qn, "raises",
-                      "raises %s which no raises-clause allows" % exc.cls.__name__)
+                      "raises %s which no raises-clause allows%s" % (exc.cls.__name__, msg))
         return
     conds = []
     uncond = False
@@ -512,7 +516,7 @@ def apply_contract(I, c, ex, args, kwargs):
             o = I.resolve_opt(I.getattr(o, q))
         if isinstance(o, Obj):
             cur = o.fields.get(parts[-1])
-            kind = c.__dict__.get('modifies_kinds', {}).get(p)
+            kind = getattr(c, 'modifies_kinds', {}).get(p)
             try:
                 o.fields[parts[-1]] = M.models_rt_havoc(I, cur, "h_" + parts[-1], kind)
             except OutOfFragment:
@@ -559,7 +563,7 @@ def apply_contract(I, c, ex, args, kwargs):
                         continue
             t = I.truth(I.eval(node, e2))
             P.assume(t)
-    P.event('return', qn)
+    P.event('return', qn, id(loc['result']))
     if not has_result and not result_bound:
         # the contract says nothing about the returned value: callers must not assume None
         return Opaque('object', 'unspecified-result-of-' + ex.name)
